@@ -297,13 +297,76 @@ def clone_batch(case, batch):
     return batch.clone()
 
 
-def call_learn(agent, case, batch):
+MA_FIELDS = ("state", "action", "reward", "next_state", "done")
+
+
+def batch_tensors(case, b):
+    """every tensor handed to learn(), by name"""
+    out = {}
+    if case["algo"] in MULTI:
+        for f, d in zip(MA_FIELDS, b):
+            for a, v in d.items():
+                out[f"{f}[{a}]"] = v
+        return out
+    parts = [("", b[0]), ("n_step.", b[1])] if case["algo"] == "Rainbow" else [("", b)]
+    for pre, td in parts:
+        if td is None:
+            continue
+        for k, v in td.flatten_keys(".").items():
+            out[pre + k] = v
+    return out
+
+
+def modified_fields(case, passed, pristine):
+    """fields of the batch handed to learn() whose contents are no longer bit-identical to the pristine copy"""
+    a, b = batch_tensors(case, passed), batch_tensors(case, pristine)
+    out = []
+    for k in b:
+        if k not in a or a[k].shape != b[k].shape or not torch.equal(a[k], b[k]):
+            diff = float((a[k].to(torch.float64) - b[k].to(torch.float64)).abs().max()) if k in a and a[k].shape == b[k].shape else None
+            out.append([k, diff])
+    return out
+
+
+class SharedBatch:
+    """the SAME experiences handed to learn() again and again (an offline dataset swept for several epochs):
+    'same'  = one batch object, 'views' = fresh slices of one dataset tensor (same storage) on every call"""
+
+    def __init__(self, case, batch, mode):
+        self.case, self.mode = case, mode
+        cat2 = lambda v: torch.cat([v.clone(), v.clone()], 0)
+        if mode == "same":
+            self.obj = clone_batch(case, batch)
+        elif case["algo"] in MULTI:
+            self.big = tuple({k: cat2(v) for k, v in d.items()} for d in batch)
+            self.B = next(iter(batch[0].values())).shape[0]
+        elif case["algo"] == "Rainbow":
+            self.big = tuple(None if td is None else torch.cat([td.clone(), td.clone()], 0) for td in batch)
+            self.B = batch[0].batch_size[0]
+        else:
+            self.big = torch.cat([batch.clone(), batch.clone()], 0)
+            self.B = batch.batch_size[0]
+
+    def get(self):
+        if self.mode == "same":
+            return self.obj
+        if self.case["algo"] in MULTI:
+            return tuple({k: v[:self.B] for k, v in d.items()} for d in self.big)
+        if self.case["algo"] == "Rainbow":
+            return tuple(None if td is None else td[:self.B] for td in self.big)
+        return self.big[:self.B]
+
+
+def call_learn(agent, case, batch, passed=None):
+    """learn() on a fresh clone of [batch] (or on [passed], experiences that share storage with earlier calls);
+    reports which of the handed-over tensors learn() modified"""
     algo = case["algo"]
-    b = clone_batch(case, batch)
+    b0 = b = clone_batch(case, batch) if passed is None else passed
     if algo == "Rainbow":
         out = agent.learn(b[0], n_experiences=b[1], per=case["rb"]["per"])
         pri = out[2]
-        return {"loss": float(out[0]), "pri": None if pri is None else [float(x) for x in np.asarray(pri).reshape(-1)]}
+        return {"loss": float(out[0]), "pri": None if pri is None else [float(x) for x in np.asarray(pri).reshape(-1)],
+                "modified": modified_fields(case, b0, batch)}
     if case.get("form") == "tuple":       # CQN / TD3 also accept the five tensors as a tuple
         b = (b["obs"], b["action"], b["reward"], b["next_obs"], b["done"])
     if algo in SINGLE_AC:
@@ -311,12 +374,14 @@ def call_learn(agent, case, batch):
             out = agent.learn(b)
         else:
             out = agent.learn(b, noise_clip=NOISE_CLIP, policy_noise=POLICY_NOISE)
-        return {"loss": float(out[1]), "actor_loss": None if out[0] is None else float(out[0])}
+        return {"loss": float(out[1]), "actor_loss": None if out[0] is None else float(out[0]),
+                "modified": modified_fields(case, b0, batch)}
     if algo in MULTI:
         out = agent.learn(b)
         return {"loss": [float(out[a][1]) for a in ids(case)],
-                "actor_loss": [None if out[a][0] is None else float(out[a][0]) for a in ids(case)]}
-    return {"loss": float(agent.learn(b))}
+                "actor_loss": [None if out[a][0] is None else float(out[a][0]) for a in ids(case)],
+                "modified": modified_fields(case, b0, batch)}
+    return {"loss": float(agent.learn(b)), "modified": modified_fields(case, b0, batch)}
 
 
 # ---------------------------------------------------------------------------------- tables: the real networks on s / s'
@@ -494,7 +559,7 @@ class C08(vlib.Driver):
                         "gamma": gammas[j % 4], "tau": taus[(j // 2) % 3], "pf": 1,
                         "dones": dones, "rewards": [rng.randint(-8, 8) / 4 for _ in range(B)],
                         "steps": 1 + (j % 5), "pre": pres[(j - 3) % len(pres)] if j >= 4 else [], "lr": 1e-2,
-                        "partial_cfg": j % 6 == 5}
+                        "partial_cfg": j % 6 == 5, "reuse": [None, "same", None, "views", None][j % 5]}
                 if algo in SINGLE_AC or algo == "MATD3":
                     case["pf"] = 1 + (j % 3)
                 if algo in SINGLE_AC:
@@ -539,6 +604,11 @@ class C08(vlib.Driver):
 
     def audit_cases(self, tier, rng):
         out = []
+        for algo in self.AUDIT:           # every learner sweeps the same experiences three times: one object / slices of one dataset
+            self.AUDIT[algo] = [v for v in self.AUDIT[algo] if not v.get("_reuse")] + \
+                [{"reuse": "same", "steps3": True, "_reuse": True}, {"reuse": "views", "steps3": True, "_reuse": True}]
+        self.AUDIT["CQN"].append({"reuse": "views", "form": "tuple", "steps3": True, "_reuse": True})
+        self.AUDIT["TD3"].append({"reuse": "same", "form": "tuple", "steps3": True, "_reuse": True})
         reps = 1 if tier == "quick" else 4
         for algo, variants in self.AUDIT.items():
             for vi, v in enumerate(variants):
@@ -562,7 +632,9 @@ class C08(vlib.Driver):
                                       "combined": bool(vi % 2), "ndones": [rng.randint(0, 1) for _ in range(B)], "wshape": "col"}
                         if v.get("per"):
                             case["rb"]["per"] = True
-                    case.update({k: x for k, x in v.items() if k not in ("per", "force_done", "atoms")})
+                    case.update({k: x for k, x in v.items() if k not in ("per", "force_done", "atoms", "steps3", "_reuse")})
+                    if v.get("steps3"):
+                        case["steps"] = 3
                     if v.get("atoms"):
                         case["rb"]["atoms"] = v["atoms"]
                     if v.get("force_done"):
@@ -633,6 +705,7 @@ class C08(vlib.Driver):
                 A = self.apply_pre(A, case, op, k)
                 A2 = self.apply_pre(A2, case, op, k)
             batch, batch2 = make_batch(case)
+            shared = SharedBatch(case, batch, case["reuse"]) if case.get("reuse") else None
             tau = float(A.tau)
             obs["tau"], obs["gamma"] = tau, float(A.gamma)
             lc = getattr(A, "learn_counter", 0)
@@ -667,7 +740,7 @@ class C08(vlib.Driver):
                 pre_nets = c08_grad.copies(A, algo)
                 torch.manual_seed(seed_k)
                 with c08_grad.StepRecorder() as recd:
-                    rec["out"] = call_learn(A, case, batch)
+                    rec["out"] = call_learn(A, case, batch, passed=None if shared is None else shared.get())
                 post = snapshot(A, algo)
                 try:      # gradient left behind by learn() vs gradient of the defined loss on the pre-step copy
                     g_impl = c08_grad.impl_grads(A, algo, recd.grads)
@@ -887,6 +960,24 @@ class C08(vlib.Driver):
                     out.append(Violation("soft-delay", f"soft-delay:{algo}:{kind}",
                                          f"learn call {k} (counter {obs['counter0'] + k + 1}, policy_freq {pf}): target {s['name']} changed "
                                          f"by {s['moved']:.3g} although this call must not update the targets"))
+            # (2b) learn() must not modify the experiences it is handed (they may be slices of a dataset / a batch that is
+            #      swept again: the next step would then learn from a corrupted transition)
+            mod = rec["out"].get("modified") or []
+            if mod and not out:
+                how = {None: "a fresh copy of the batch", "same": "the same batch object as in the earlier calls",
+                       "views": "fresh slices of one dataset tensor (same storage as in the earlier calls)"}[case.get("reuse")]
+                conseq = ""
+                if case.get("reuse") and k + 1 < len(obs["steps"]):      # what the next sweep over the same storage then does
+                    nxt_rec = obs["steps"][k + 1]
+                    r2 = ref_loss(case, nxt_rec["tables"])
+                    r2 = r2[0] if algo == "Rainbow" else r2
+                    conseq = (f" Consequence on this very history: learn call {k + 1} on the same storage returned loss "
+                              f"{nxt_rec['out']['loss']!r} where the loss defined on the pristine transitions is {r2!r}.")
+                for fld, diff in mod[:1]:
+                    out.append(Violation("args-modified", f"args-modified:{algo}:{fld.split('[')[0]}",
+                                         f"learn call {k} (handed {how}): learn() changed the caller's tensor {fld!r} in place "
+                                         f"(max abs change {diff}); all modified fields: {[m[0] for m in mod]}. A later learn step that sees the "
+                                         f"same storage no longer learns from the stored transition." + conseq))
             if out:
                 break
         # (3) a done transition's next observation has no influence at all
@@ -966,7 +1057,7 @@ class C08(vlib.Driver):
 
     def key(self, case):
         return super().key({k: case.get(k) for k in ("algo", "dones", "gamma", "tau", "pf", "steps", "pre", "rb", "share", "ma_split", "obs", "form", "act1d",
-                                                               "default_noise", "key_order", "ids_unsorted", "ma_discrete")})
+                                                               "default_noise", "key_order", "ids_unsorted", "ma_discrete", "reuse")})
 
     def nontrivial(self, case, obs):
         d = case["dones"][:case["B"]]
@@ -978,7 +1069,7 @@ class C08(vlib.Driver):
                 f"steps={case['steps']}", f"B={case['B']}", "pre=" + "+".join(case["pre"] or ["none"]), "cfg=" + ("partial" if case.get("partial_cfg") else "tiny"),
                 "dones=" + ("mixed" if (0 in d and 1 in d) else ("all1" if 1 in d else "all0"))]
         labs.append("obs=" + case.get("obs", "vec"))
-        for flag in ("form", "act1d", "default_noise", "key_order", "ids_unsorted", "ma_discrete"):
+        for flag in ("form", "act1d", "default_noise", "key_order", "ids_unsorted", "ma_discrete", "reuse"):
             if case.get(flag):
                 labs.append(f"{flag}={case[flag]}")
         if len(case["pre"]) >= 3 or (case["pre"] and case["pre"][0] != "learn"):
